@@ -804,7 +804,12 @@ def _run_tree(case):
                 from concurrent.futures import Future
 
                 if isinstance(r, Future):
+                    import threading
+
                     state["out"], state["future"] = True, r
+                    state["done"] = threading.Event()
+                    # registered after the node's own callback: fires once `_finish_run` is through
+                    r.add_done_callback(lambda _f, ev=state["done"]: ev.set())
                     return "future"
                 return "ok"
             if kind == "complete":
@@ -814,10 +819,7 @@ def _run_tree(case):
                     return "notOut"
                 if real:
                     open(gate_path, "w").close()
-                    t0 = time.time()
-                    while (t.running or not state["future"].done()) and time.time() - t0 < 100:
-                        time.sleep(0.002)
-                    if t.running:
+                    if not state["done"].wait(100):
                         state["out"] = False
                         return "hang"
                 else:
